@@ -13,13 +13,15 @@ modules:
   dispatch -> Gen/Dispatch.lean: which kernel every constructor installs under each CPU-feature mask  (C07)
   tmpbytes -> Gen/TmpBytes.lean: live *_tmp_bytes / bytes_of_* values over a shape box               (C11)
   q120 / q120ntt : delegated to tools/gen_q120.py / tools/gen_q120ntt.py when present
+  csrc     -> Gen/CSrc.lean    : the C source of the coefficient kernels translated into terms of the deep-embedded
+                                 IR Spq.CIR by tools/c2lean.py (clang JSON AST)                    (C05 C08 C09)
 """
 import glob, json, os, re, subprocess, sys
 
 VERIF = os.path.dirname(os.path.dirname(os.path.abspath(__file__)))
 REPO = os.environ.get("VERIF_REPO", "/repo")
 GEN = os.path.join(VERIF, "lean", "Gen")
-ALL = ["globals", "caches", "dispatch", "tmpbytes", "q120", "q120ntt"]
+ALL = ["globals", "caches", "dispatch", "tmpbytes", "q120", "q120ntt", "csrc"]
 
 
 def write_if_changed(path, content):
@@ -369,6 +371,12 @@ def generate(mods, libdir):
             except ImportError:
                 continue
             res[m] = gen_q120ntt.generate(libdir)
+        elif m == "csrc":
+            # C source of the coefficient kernels -> CIR terms (Gen/CSrc.lean).  A function with a construct the
+            # translator does not handle becomes a stub term (the theorems about it then fail) and is listed in
+            # res["csrc"]["unsupported"]
+            import c2lean
+            res[m] = c2lean.generate()
     return res
 
 
